@@ -1,22 +1,109 @@
-"""Recorder for IntegrationSolver.solve (the flow-integration solver): events for spec/IntegrationTrace.tla."""
+"""Recorder for IntegrationSolver.solve (the flow-integration solver): events for spec/IntegrationTrace.tla.
+
+No hook in the repository: a subclass overrides perform_integration / handle_events, and the loop-top residuum test is
+observed by wrapping RestrictedFlow.residuum for calls whose caller is IntegrationSolver.solve (the frame's locals give the
+point and the free set the loop works with at that moment).
+"""
 import sys
 
 import numpy as np
 
-import pygradflow.integration.integration_solver as ig_mod
 from harness import oracle
 from pygradflow.integration.integration_solver import IntegrationSolver
 from pygradflow.integration.restricted_flow import RestrictedFlow
+
+
+def _free(filt):
+    return [int(j) + 1 for j in np.nonzero(np.asarray(filt))[0]]
+
+
+def _dense(a):
+    return np.asarray(a.toarray() if hasattr(a, "toarray") else a, dtype=float)
+
+
+def oracle_filter_ok(problem, z, filt, rho):
+    """Independent check of the free set at a point: a pinned variable sits at a bound and the flow does not point strictly
+    inward there; a free variable at a one-sided bound is not pushed strictly outward.  Signs within a relative 1e-7 of zero
+    decide nothing (second-order information is the code's business)."""
+    n = problem.num_vars
+    x, y = z[:n], z[n:]
+    c = np.asarray(problem.cons(x), dtype=float) if problem.num_cons else np.zeros(0)
+    g = np.asarray(problem.obj_grad(x), dtype=float)
+    if problem.num_cons:
+        g = g + _dense(problem.cons_jac(x)).T @ (rho * c + y)
+    dx = -g
+    tol = 1e-7 * (1.0 + np.abs(g).max() if n else 1.0)
+    lb, ub = problem.var_lb, problem.var_ub
+    at_lb = np.isclose(x, lb, rtol=1e-12, atol=1e-12)
+    at_ub = np.isclose(x, ub, rtol=1e-12, atol=1e-12)
+    for j in range(n):
+        if filt[j]:
+            if at_lb[j] and not at_ub[j] and dx[j] < -tol:
+                return False
+            if at_ub[j] and not at_lb[j] and dx[j] > tol:
+                return False
+        else:
+            if not (at_lb[j] or at_ub[j]):
+                return False
+            if at_lb[j] and not at_ub[j] and dx[j] > tol:
+                return False
+            if at_ub[j] and not at_lb[j] and dx[j] < -tol:
+                return False
+    return True
 
 
 class TracedIntegrationSolver(IntegrationSolver):
     def __init__(self, problem, params):
         super().__init__(problem, params)
         self.raw = []
+        self._events = None
+
+    def handle_events(self, events, restricted_flow, rho):
+        res = super().handle_events(events, restricted_flow, rho)
+        kinds = []
+        params = self.params
+        n = self.problem.num_vars
+        for e in events:
+            k = e.type.name
+            if k == "UNBOUNDED":
+                # independent feasibility of the event point
+                x = np.asarray(e.state[:n], dtype=float)
+                c = np.asarray(self.problem.cons(x), dtype=float) if self.problem.num_cons else np.zeros(0)
+                viol = max([0.0] + list(np.abs(c)) + list(np.maximum(self.problem.var_lb - x, 0.0)) + list(np.maximum(x - self.problem.var_ub, 0.0)))
+                k = "UNB_FEAS" if viol <= params.opt_tol else "UNB_INFEAS"
+            kinds.append((k, (int(e.index) + 1) if k in ("LB", "UB", "GRAD_FIXED") else 0, e))
+        first = 0
+        for pos, (k, _, _) in enumerate(kinds):
+            if k != "UNB_INFEAS":
+                first = pos + 1
+                break
+        decided = 0
+        if res is not None:
+            for pos, (_, _, e) in enumerate(kinds):
+                if e.state is res.z and e.time == res.t:
+                    decided = pos + 1
+                    break
+        trig, j = "none", 0
+        if decided and kinds[decided - 1][0] in ("LB", "UB", "GRAD_FIXED"):
+            trig, j = kinds[decided - 1][0], kinds[decided - 1][1]
+        self._events = {"kinds": [k for k, _, _ in kinds], "firstDeciding": first, "decided": decided, "trig": trig, "j": j}
+        return res
 
     def perform_integration(self, curr_t, curr_z, curr_filter, rho):
+        self._events = None
+        before = np.array(curr_filter, copy=True)
+        z0 = np.array(curr_z, copy=True)
         res = super().perform_integration(curr_t, curr_z, curr_filter, rho)
-        self.raw.append(("int", res.status.name()))
+        n = self.problem.num_vars
+        x1 = np.asarray(res.z[:n])
+        ev = self._events or {"kinds": [], "firstDeciding": 0, "decided": 0, "trig": "none", "j": 0}
+        self.raw.append(("int", {
+            "result": res.status.name(), "freeBefore": _free(before), "freeAfter": _free(res.filter),
+            "trig": ev["trig"], "j": ev["j"], "decided": ev["decided"], "firstDeciding": ev["firstDeciding"], "kinds": ev["kinds"],
+            "tFwd": bool(res.t >= curr_t), "rho": float(rho),
+            "pinnedKept": bool((x1[~before] == z0[:n][~before]).all()),
+            "inBox": bool((self.problem.var_lb <= x1).all() and (x1 <= self.problem.var_ub).all()),
+            "callerFilterUntouched": bool((np.asarray(curr_filter) == before).all())}))
         return res
 
     def solve(self, x0=None, y0=None):
@@ -25,10 +112,17 @@ class TracedIntegrationSolver(IntegrationSolver):
 
         def residuum(rf, z):
             v = orig(rf, z)
-            caller = sys._getframe(1).f_code
+            fr = sys._getframe(1)
+            caller = fr.f_code
             if caller.co_name == "solve" and caller.co_filename.endswith("integration_solver.py"):
                 # the residuum test at the loop top (other calls come from the event triggers of the integrator)
-                solver.raw.append(("res", bool(v <= solver.params.opt_tol)))
+                filt = np.array(fr.f_locals.get("curr_filter", rf.filter), copy=True)
+                zz = np.array(z, copy=True)
+                n = solver.problem.num_vars
+                solver.raw.append(("res", {
+                    "resLe": bool(v <= solver.params.opt_tol), "free": _free(filt), "rho": float(solver.rho),
+                    "filterOK": bool(oracle_filter_ok(solver.problem, zz, filt, solver.rho)),
+                    "inBox": bool((solver.problem.var_lb <= zz[:n]).all() and (zz[:n] <= solver.problem.var_ub).all())}))
             return v
 
         RestrictedFlow.residuum = residuum
@@ -46,9 +140,16 @@ def events_of(solver, result, problem, params):
     for k, (kind, val) in enumerate(raw):
         last = k == len(raw) - 1
         if kind == "res":
-            evs.append({"ev": "Top", "resLe": val, "expired": False, "status": status if last else "none"})
+            evs.append({"ev": "Top", "resLe": val["resLe"], "expired": False, "status": status if last else "none",
+                        "free": val["free"], "filterOK": val["filterOK"], "inBox": val["inBox"]})
         else:
-            evs.append({"ev": "Integrate", "result": val, "limitHit": bool(last and status == "IterationLimit")})
+            # the penalty the loop continues with: at the next loop top, or the solver's final value
+            nxt = raw[k + 1][1]["rho"] if not last else float(solver.rho)
+            mul = "same" if nxt == val["rho"] else ("x10" if nxt == 10 * val["rho"] else "other")
+            evs.append({"ev": "Integrate", "result": val["result"], "limitHit": bool(last and status == "IterationLimit"),
+                        "trig": val["trig"], "j": val["j"], "freeAfter": val["freeAfter"], "rhoMul": mul,
+                        "decided": val["decided"], "firstDeciding": val["firstDeciding"], "kinds": val["kinds"],
+                        "tFwd": val["tFwd"], "pinnedKept": val["pinnedKept"], "inBox": val["inBox"]})
     kkt = {"boundsExact": True, "rows": [], "vars": []}
     if status == "Optimal":
         kkt = oracle.kkt_classes(problem, None, params, result.x, result.y, result.d, rel_slack=1e-6)
